@@ -95,9 +95,22 @@ fn libs(fields: &[String]) -> Vec<String> {
     std::fs::create_dir_all(&base).ok();
     let mut it = progx::new_interpreter(&fields[0]);
     it.program_directory = Some(std::path::PathBuf::from(&base));
+    // the process's WORKING directory is another, private directory: `W<path>=<content>` puts a file there (a decoy: library
+    // files are looked up relative to the program, never relative to the working directory)
+    let cwd = format!("{}/cwd-{}", dir, std::process::id());
+    std::fs::remove_dir_all(&cwd).ok();
+    std::fs::create_dir_all(&cwd).ok();
+    std::env::set_current_dir(&cwd).ok();
     let mut out = vec![];
     for f in &fields[1..] {
-        if let Some(rest) = f.strip_prefix('F') {
+        if let Some(rest) = f.strip_prefix('W') {
+            let (path, content) = rest.split_once('=').unwrap();
+            let full = std::path::PathBuf::from(&cwd).join(path);
+            if let Some(parent) = full.parent() {
+                std::fs::create_dir_all(parent).ok();
+            }
+            std::fs::write(&full, content).unwrap();
+        } else if let Some(rest) = f.strip_prefix('F') {
             let (path, content) = rest.split_once('=').unwrap();
             let full = std::path::PathBuf::from(&base).join(path);
             if let Some(parent) = full.parent() {
@@ -123,6 +136,8 @@ fn libs(fields: &[String]) -> Vec<String> {
         }
     }
     std::fs::remove_dir_all(&base).ok();
+    std::env::set_current_dir(&dir).ok();
+    std::fs::remove_dir_all(&cwd).ok();
     out
 }
 
